@@ -598,10 +598,59 @@ def add_finding(res: SearchResult, label: str, key: str, path: str, suffix: str,
 	res.findings.append(Finding(key=f'{key}{suffix}', what=f'{label}: {what}', replay=replay))
 
 
-def check_tree(label: str, src: str, root: Any, literals: set[str], res: SearchResult, suffix: str) -> dict[str, tuple[Any, Any, Any, Any]]:
+_GRAMMAR_SETS: dict[str, Any] = {}
+_LEX_CACHE: dict[str, Any] = {}
+
+
+def grammar_first_last(parser: Any) -> tuple[dict[str, set[str]], dict[str, set[str]]]:
+	"""For every tree name of the grammar (rule name, alias or template name): the terminal types a derivation of it can
+	begin with and end with — FIRST/LAST sets computed by lark's own grammar analysis from the loaded rules. Independent of
+	the positions under test: a tree's span must begin at a token of FIRST(name) and end at a token of LAST(name)."""
+	if _GRAMMAR_SETS:
+		return _GRAMMAR_SETS['first'], _GRAMMAR_SETS['last']
+	from lark.grammar import Rule
+	from lark.parsers.grammar_analysis import calculate_sets
+	rules = parser.dirty_get_origin().rules
+
+	def sets(rs: list[Any]) -> dict[str, set[str]]:
+		first, _, nullable = calculate_sets(rs)
+		out: dict[str, set[str]] = {}
+		for r in rs:
+			name = str(r.alias or (r.options.template_source if r.options and r.options.template_source else None) or r.origin.name)
+			acc = out.setdefault(name, set())
+			for sym in r.expansion:
+				acc.update(t.name for t in first[sym])
+				if sym not in nullable:
+					break
+		return out
+
+	_GRAMMAR_SETS['first'] = sets(list(rules))
+	_GRAMMAR_SETS['last'] = sets([Rule(r.origin, list(reversed(r.expansion)), r.order, r.alias, r.options) for r in rules])
+	return _GRAMMAR_SETS['first'], _GRAMMAR_SETS['last']
+
+
+def lexer_index(parser: Any, src: str) -> tuple[dict[tuple[int, int], str], dict[tuple[int, int], str]] | None:
+	"""token type by begin position and by end position, from the parser's own lexer on the text the parser parses"""
+	if src in _LEX_CACHE:
+		return _LEX_CACHE[src]
+	text = src if src.endswith('\n') or src == '' else src + '\n'
+	try:
+		toks = [t for t in lexer_tokens(parser, text) if t.type not in ('_INDENT', '_DEDENT')]
+		out: Any = ({(t.line, t.column): t.type for t in toks}, {(t.end_line, t.end_column): t.type for t in toks})
+	except Exception:  # noqa: BLE001
+		out = None
+	if len(_LEX_CACHE) > 8:
+		_LEX_CACHE.clear()
+	_LEX_CACHE[src] = out
+	return out
+
+
+def check_tree(label: str, src: str, root: Any, literals: set[str], res: SearchResult, suffix: str, grammar: Any = None) -> dict[str, tuple[Any, Any, Any, Any]]:
 	"""all span statements for one tree (entries through the Entry interface only); returns path → span of every entry, so that
 	the spans of the cache-restored tree can be compared with the cold ones node by node"""
 	recorded: dict[str, tuple[Any, Any, Any, Any]] = {}
+	lex = lexer_index(grammar, src) if grammar is not None else None
+	first, last = grammar_first_last(grammar) if grammar is not None else ({}, {})
 	starts = line_starts(src)
 	eof = (len(starts), len(src) - starts[-1] + 1)
 	ptoks = py_tokens(src)
@@ -664,7 +713,19 @@ def check_tree(label: str, src: str, root: Any, literals: set[str], res: SearchR
 			elif e.is_terminal:
 				if text != e.value:
 					find('token-slice', f'token {path} = {e.value!r} but its span {s} holds {text!r}', path)
-			elif ptoks is not None:
+			if text is not None and not e.is_terminal and lex is not None:
+				# the span begins at a token the node's own rule can begin with and ends at one it can end with (a span that
+				# swallows a neighbouring token of the surrounding rule — `if` before a comprehension condition, `:` before an
+				# annotation — begins with a token outside FIRST)
+				tb, te = lex[0].get(b), lex[1].get(en)
+				name = str(e.name)
+				if tb is not None and name in first and tb not in first[name]:
+					find('span-begin-not-first-token', f'span {s} of {path} begins at a {tb} token, but a {name} begins with one of {sorted(first[name])[:6]}', path)
+				if te is not None and name in last and te not in last[name] and not (te == '_NEWLINE' and '_DEDENT' in last[name]):
+					find('span-end-not-last-token', f'span {s} of {path} ends at a {te} token, but a {name} ends with one of {sorted(last[name])[:6]}', path)
+				if tb is not None and name in first:
+					res.histogram['first-last-checked'] = res.histogram.get('first-last-checked', 0) + 1
+			if text is not None and not e.is_terminal and ptoks is not None:
 				# token-aligned (quoted annotations are lexed by the grammar as ' NAME ': boundaries inside a CPython STRING are exempt)
 				for pos, side in ((b, 'begin'), (en, 'end')):
 					if pos not in bounds and not inside_string(pos):
@@ -818,6 +879,8 @@ def search_spans(ctx: Ctx) -> tuple[SearchResult, SearchResult]:
 	res = SearchResult("spans vs CPython's tokenizer: token spans slice to the token text; tree spans are token-aligned and hold exactly the subtree's named terminals; child ⊆ parent; siblings ordered — fresh and cache-restored trees")
 	resq = SearchResult('quotation of ErrorRender(Errors.X(node)) marks exactly columns [begin, end) of the reported line (text-level oracle) — fresh and cache-restored trees')
 	literals = grammar_literals()
+	from rogw.tranp.syntax.ast.parser import SyntaxParser
+	grammar = common.MemApp(ctx.tmpdir()).resolve(SyntaxParser)  # the parser object, for its lexer and its rule table
 	pr = Project(ctx)
 	mods: list[str] = []
 	for k, (name, src) in enumerate(corpus_modules()):
@@ -851,7 +914,7 @@ def search_spans(ctx: Ctx) -> tuple[SearchResult, SearchResult]:
 			res.cases += 1
 			seen.add(hash(pr.sources[mp]))
 			try:
-				spans = check_tree(pr.labels[mp], pr.sources[mp], root, literals, res, suffix)
+				spans = check_tree(pr.labels[mp], pr.sources[mp], root, literals, res, suffix, grammar)
 				if restored:
 					compare_with_cold(pr.labels[mp], pr.sources[mp], cold_spans, spans, res)
 					res.histogram['entries-compared-with-cold'] = res.histogram.get('entries-compared-with-cold', 0) + len(spans)
@@ -878,7 +941,7 @@ def search_spans(ctx: Ctx) -> tuple[SearchResult, SearchResult]:
 				continue
 			res.cases += 1
 			try:
-				check_tree(label, new_src, root, literals, res, '')
+				check_tree(label, new_src, root, literals, res, '', grammar)
 			except Exception as e:  # noqa: BLE001
 				add_finding(res, label, f'span-raises:{exc_enum(e)}', 'file_input', '', f'reading the spans raises {exc_enum(e)}', {'module': label, 'source': new_src[:20000]})
 			check_quotations(pr, mp, ep, rng, ctx.scale(40, 60), resq, '')
@@ -889,7 +952,7 @@ def search_spans(ctx: Ctx) -> tuple[SearchResult, SearchResult]:
 	resq.distinct = resq.cases
 	if not exercised and not res.findings and not resq.findings:
 		raise common.InfraError('no module was restored from the on-disk cache: the restored half of the search did not run')
-	res.note = 'the cache-restored tree is compared with the cold parse node by node (every entry: span; sampled nodes: printed quotation); history: every 4th generated module is rewritten after its tree was cached (mtime changed only in its fractional second) and re-parsed by a fresh App on the same cache directory — the spans must delimit the current text; restrictions: positions inside a CPython STRING token are exempt from the boundary/content checks (quoted annotations are lexed by the grammar as QUOTE NAME QUOTE); CPython NAME tokens that are Python keywords or anonymous literals of grammar.lark, and `# type: ignore` comments (ignored by the grammar) need not be terminals; f-strings are folded into one STRING; the end of a multi-line CPython STRING token is recomputed from its start and text (CPython 3.12 miscounts it after non-ASCII text); files with CR are excluded; for a text without final line feed (lines+1, 1) counts as end of input'
+	res.note = 'every tree span begins at a token of FIRST(rule) and ends at a token of LAST(rule) (sets from lark\'s grammar analysis, token types from the parser\'s lexer); the cache-restored tree is compared with the cold parse node by node (every entry: span; sampled nodes: printed quotation); history: every 4th generated module is rewritten after its tree was cached (mtime changed only in its fractional second) and re-parsed by a fresh App on the same cache directory — the spans must delimit the current text; restrictions: positions inside a CPython STRING token are exempt from the boundary/content checks (quoted annotations are lexed by the grammar as QUOTE NAME QUOTE); CPython NAME tokens that are Python keywords or anonymous literals of grammar.lark, and `# type: ignore` comments (ignored by the grammar) need not be terminals; f-strings are folded into one STRING; the end of a multi-line CPython STRING token is recomputed from its start and text (CPython 3.12 miscounts it after non-ASCII text); files with CR are excluded; for a text without final line feed (lines+1, 1) counts as end of input'
 	resq.note = 'an empty column range is shown by one caret at its position (the renderer\'s documented minimum); nodes whose span has no position (0,0,0,0) must not be quoted at all (regression of fix dc3e568); a None position or a raising renderer is a finding (regression of fix 46d0462); CRLF files excluded'
 	return res, resq
 
